@@ -1,3 +1,5 @@
+\* generated from checks/C07.py (the check passes the same text as cfg_text); kept for running TLC by hand
+\* model of the pinned tree: Refines is expected to be VIOLATED (nil slot / stale pointer re-used by CopyTo)
 SPECIFICATION MCSpec
 CONSTANTS
   Vars = {"x", "y"}
@@ -8,13 +10,13 @@ CONSTANTS
   Keys = {}
   Caps = {4}
   RawLens = {}
-  RawShape = 1
+  RawShape = 0
   MaxLen = 4
   MaxKids = 2
   ZeroTouch = TRUE
   Ptr = TRUE
   FixedSlots = FALSE
-  FixedUnset = FALSE
+  FixedUnset = TRUE
   MaxSteps = 3
   InitLens = {0, 2, 3}
 INVARIANT Refines
